@@ -228,18 +228,25 @@ func (kgdb *KVInterfaceGDB) AddEdge(edges []*gdbi.Edge) error {
 	return err
 }
 
+// BulkAdd writes the vertices and edges of the stream with one bulk write.
+// An element that fails validation is skipped and reported in the returned
+// error; it does not keep the other elements from being stored.
 func (kgdb *KVInterfaceGDB) BulkAdd(stream <-chan *gdbi.GraphElement) error {
 	inserted := 0
 	written := map[string][]byte{}
 	labels := newVertexLabels()
+	var invalid *multierror.Error
 	err := kgdb.kvg.kv.BulkWrite(func(tx kvi.KVBulkWrite) error {
 		var bulkErr *multierror.Error
 		for elem := range stream {
 			if elem.Vertex != nil {
-				if v := elem.Vertex.ToVertex(); v.Validate() == nil {
-					labels.note(kgdb, v.Gid, v.Label)
+				vertex := elem.Vertex.ToVertex()
+				if err := vertex.Validate(); err != nil {
+					invalid = multierror.Append(invalid, err)
+					continue
 				}
-				if err := insertVertex(tx, kgdb.kvg.idx, kgdb.graph, elem.Vertex.ToVertex()); err != nil {
+				labels.note(kgdb, vertex.Gid, vertex.Label)
+				if err := insertVertex(tx, kgdb.kvg.idx, kgdb.graph, vertex); err != nil {
 					bulkErr = multierror.Append(bulkErr, err)
 				} else {
 					inserted++
@@ -247,7 +254,12 @@ func (kgdb *KVInterfaceGDB) BulkAdd(stream <-chan *gdbi.GraphElement) error {
 				continue
 			}
 			if elem.Edge != nil {
-				if ekey, err := insertEdge(tx, kgdb.kvg.idx, kgdb.graph, elem.Edge.ToEdge()); err != nil {
+				edge := elem.Edge.ToEdge()
+				if err := edge.Validate(); err != nil {
+					invalid = multierror.Append(invalid, err)
+					continue
+				}
+				if ekey, err := insertEdge(tx, kgdb.kvg.idx, kgdb.graph, edge); err != nil {
 					bulkErr = multierror.Append(bulkErr, err)
 				} else {
 					inserted++
@@ -258,18 +270,25 @@ func (kgdb *KVInterfaceGDB) BulkAdd(stream <-chan *gdbi.GraphElement) error {
 		}
 		return bulkErr.ErrorOrNil()
 	})
+	if err != nil {
+		// the bulk write was abandoned: nothing of this stream is stored
+		if invalid != nil {
+			err = multierror.Append(err, invalid.Errors...)
+		}
+		return err
+	}
 	if len(written) > 0 {
-		if rerr := kgdb.removeStaleEdgeKeys(written); rerr != nil && err == nil {
-			err = rerr
+		if rerr := kgdb.removeStaleEdgeKeys(written); rerr != nil {
+			return rerr
 		}
 	}
 	if inserted > 0 {
-		if rerr := labels.unindexStale(kgdb); rerr != nil && err == nil {
-			err = rerr
+		if rerr := labels.unindexStale(kgdb); rerr != nil {
+			return rerr
 		}
 		kgdb.kvg.ts.Touch(kgdb.graph)
 	}
-	return err
+	return invalid.ErrorOrNil()
 }
 
 // DelEdge deletes edge with id `key`. The edge record, its two adjacency
